@@ -662,6 +662,22 @@ impl<'a, 'tcx> FnCx<'a, 'tcx> {
                 o.push(("def_name", J::str(&pretty(tcx, uv.def))));
                 if let Some(p) = uv.promoted {
                     o.push(("promoted", J::num(p.as_usize() as i128)));
+                    // value of the promoted constant (a reference to an anonymous static): dump the pointee bytes
+                    if let Ok(v) = c.const_.eval(tcx, self.tenv, rustc_span::DUMMY_SP) {
+                        if let ConstValue::Scalar(sc) = v {
+                            if let rustc_middle::mir::interpret::Scalar::Ptr(ptr, _) = sc {
+                                let (prov, off) = ptr.into_raw_parts();
+                                if let rustc_middle::mir::interpret::GlobalAlloc::Memory(alloc) = tcx.global_alloc(prov.alloc_id()) {
+                                    let a = alloc.inner();
+                                    let off = off.bytes() as usize;
+                                    if a.len() >= off && a.len() - off <= 256 && a.provenance().ptrs().is_empty() {
+                                        let bytes = a.inspect_with_uninit_and_ptr_outside_interpreter(off..a.len());
+                                        o.push(("pbytes", J::str(&hex(bytes))));
+                                    }
+                                }
+                            }
+                        }
+                    }
                 }
                 if !uv.args.is_empty() {
                     o.push((
